@@ -275,9 +275,11 @@ def stepCore (cfg : Cfg) (s : State) : Op → Except Err State
     pure (finish s1 c (s1.chains c) tokens [])
   | .bcinfail c r tokens => do
     let cs := s.chains c
-    -- credit to the callee outside the cache context; the EVM part fails and is discarded; the refund is an
-    -- outgoing bridge call built from the *refund address'* coins
-    let fl1 ← tokensFlow cfg c tokens (fun k g n => bridgeTokenToBaseCoin k g c badContract n)
+    -- credit to the callee outside the cache context; the EVM part fails and is discarded; the credited coins are
+    -- handed to the refund address (`SendCoins(receiver, refundAddr, baseCoins)`), and the refund is an outgoing bridge
+    -- call built from the refund address' coins
+    let fl1 ← tokensFlow cfg c tokens (fun k g n =>
+      bridgeTokenToBaseCoin k g c badContract n ++ [.send (.base g) badContract (U r) n])
     let fl2 ← tokensFlow cfg c tokens (fun k g n => baseCoinToBridgeToken k g c (U r) n)
     let s1 ← run s (fl1 ++ fl2)
     pure (finish s1 c { cs with
@@ -290,6 +292,8 @@ def stepCore (cfg : Cfg) (s : State) : Op → Except Err State
     run s (convertERC20 k g (U u) (U r) n)
   | .convertDenom g u r n src dst => do
     let some k := cfg.kind g | .error .notFound
+    -- `ToTargetDenom`: a target chain without an alias falls back to the base denomination
+    let dst := if okDen cfg g dst then dst else .base
     if k = .fx ∨ src = dst then .error .invalid else
     if !(okDen cfg g src && okDen cfg g dst) then .error .notFound else
     let fl := convertDenom k g (U u) n src dst ++
